@@ -490,6 +490,16 @@ class Program:
                     stack.append(c.key)
         return out
 
+    def closure_parents(self, body):
+        """the function(s) a closure body belongs to: its parent, or - when that parent was a helper folded into its
+        callers (analysis/inline.normalize_program) - every function that now contains the helper's code"""
+        if not body.is_closure:
+            return []
+        p = self.bodies.get(body.parent)
+        if p is not None:
+            return [p]
+        return [b for b in self.bodies.values() if body.parent in (getattr(b, "inlined_callees", None) or [])]
+
     def with_closures(self, key):
         return [self.body(key)] + self.closures_of(key)
 
